@@ -12,11 +12,10 @@ theorem closedIn_cons (op : Op) (o : Outcome) (h : List (Op × Outcome)) :
     closedIn ((op, o) :: h) = ((op.isClose && o == .ok) || closedIn h) := by
   simp [closedIn]
 
-/-- how a call made after close()/logout() returned ends in the model of the unchanged code
-(`sendUnseq` is the recorded deviation: the property wants `state` there too) -/
+/-- how a call made after close()/logout() returned must end: the state error (close/logout return at once) -/
 def expectedAfterClose : Op → Outcome
-  | .recv | .send | .execTimed => .state
-  | .close | .logout | .sendUnseq => .ok
+  | .recv | .send | .sendUnseq | .execTimed => .state
+  | .close | .logout => .ok
 
 /-- every call finished after a returned close()/logout() of the same thread ended as `expectedAfterClose` says
 (history is most recent first) -/
@@ -33,7 +32,7 @@ def headIsClose (c : Caller) : Bool :=
 def jobFits (c : Caller) : Bool :=
   match c.job, c.prog with
   | .none, _ => true
-  | .submitted k, op :: _ => k == op.jobKind && op != .sendUnseq
+  | .submitted k, op :: _ => k == op.jobKind
   | .blocked _, op :: _ => op == .recv
   | .running, op :: _ => op == .execTimed
   | .done _, _ :: _ => true
@@ -44,7 +43,7 @@ def afterClosePc (c : Caller) : Bool :=
   match c.pc with
   | .idle | .acq | .chkEvt | .rel | .waitEvt | .join => true
   | .chk1 | .chk2 => !headIsClose c
-  | .submit | .wait | .relExc => false
+  | .submit | .wait => false
 
 def cinv2 (alive : Bool) (cpc : ClosePc) (c : Caller) : Prop :=
   (closedIn c.hist = true → alive = false) ∧
